@@ -1003,7 +1003,7 @@ DETAIL["c20_position_present"] = lambda k, p: {"source": place(EOF_FAMILY[k], p)
 from harness import corpus as _corpus  # noqa: E402
 
 _CENV = _corpus.make_env(XEnv)
-for _k in ("p", "q"):
+for _k in ("p", "q", "brk"):
     SOURCES.setdefault(_k, _corpus.PARTIALS[_k])
 
 
